@@ -206,6 +206,16 @@ def check_invariants(inst, is_schema, options, initial_imm, step, inherit=False)
                     fails.append((f"unknown-key-stored-although-addition-is-off/{step}", {"key": k}))
                 elif addition == "int" and type(v) is not int:
                     fails.append((f"unparsed-addition-stored/{step}", {"key": k, "value": codec.encode(v)}))
+    # (1b) keys outside the declaration (kept under addition): attribute and key agree for them as well
+    if is_schema and not SHAPE.get("raw_attr"):
+        # (inst.zz = v on a name that is no field is plain Python attribute assignment, not an operation on the data: once a history
+        # does that the two views of that name are unrelated)
+        for k in UNKNOWN:
+            in_keys, in_attrs = dict.__contains__(inst, k), k in vars(inst)
+            if in_attrs and not in_keys:
+                fails.append((f"views-disagree/unknown-key/attribute-without-key/{step}", {"key": k, "attr": codec.encode(vars(inst)[k])}))
+            elif in_attrs and in_keys and not oracle.equal(vars(inst)[k], dict.__getitem__(inst, k)):
+                fails.append((f"views-disagree/unknown-key/different-values/{step}", {"key": k, "attr": codec.encode(vars(inst)[k]), "item": codec.encode(dict.__getitem__(inst, k))}))
     # (2) required present
     present_req = (dict.__contains__(inst, "req") if is_schema else "req" in vars(inst))
     if not present_req and SHAPE.get("req", "required") == "required":
@@ -412,6 +422,8 @@ def run_case(case):
                 continue
             if not is_schema and k not in ("setattr", "delattr"):
                 continue
+            if k in ("setattr", "delattr") and op.get("key") in UNKNOWN:
+                SHAPE["raw_attr"] = True
             before = view(target, is_schema)
             want = predict(op, target, is_schema, options, inherit) if k in SINGLE else None
             out = oracle.outcome(apply_op, target, op, is_schema)
